@@ -189,11 +189,17 @@ incremental = false
 """ % REPO
 
 
+def lock_file():
+    # the crate's own lock file (git-ignored there) if present, else the copy kept with the harness
+    own = os.path.join(REPO, "Cargo.lock")
+    return own if os.path.exists(own) else os.path.join(VERIF, "harness", "Cargo.lock")
+
+
 def write_pkg(progs):
     shutil.rmtree(PKG, ignore_errors=True)
     os.makedirs(os.path.join(PKG, "src", "bin"))
     open(os.path.join(PKG, "Cargo.toml"), "w").write(CARGO_TOML)
-    shutil.copy(os.path.join(REPO, "Cargo.lock"), os.path.join(PKG, "Cargo.lock"))
+    shutil.copy(lock_file(), os.path.join(PKG, "Cargo.lock"))
     for p in progs:
         open(os.path.join(PKG, "src", "bin", p["name"] + ".rs"), "w").write(p["src"])
 
@@ -317,4 +323,12 @@ def main():
 
 
 if __name__ == "__main__":
-    main()
+    try:
+        main()
+    except SystemExit:
+        raise
+    except BaseException as e:  # an engine crash is a machinery exit (2), never a verdict
+        import traceback
+        traceback.print_exc()
+        print("MACHINERY-ERROR: C19 engine crashed: %r" % (e,))
+        sys.exit(2)
